@@ -235,7 +235,7 @@ def run(pid, tier, seed):
     bdir = C.ensure_harness("plain", ["drv_fatal"])
     work = C.BUILD / "work" / pid
     rnd = random.Random(seed * 2038074743 + 11)
-    n = 24 if tier == "quick" else 400
+    n = 24 if tier == "quick" else 160
     scns = [FatalScenario(i + 1, rnd, tier) for i in range(n)]
     runs = []
     owner = []
